@@ -51,6 +51,7 @@ OWNERS = {
     "ih5.record.IH5Record._open": [("h5py.File", "r+")],  # only the uncommitted newest container, see R1b
     "ih5.record.IH5UserBlock.save": [("open", "r+b")],  # callers restricted by R2
     "ih5.manifest.IH5Manifest.save": [("open", "wb")],  # callers restricted by R2
+    "ih5.manifest.IH5MFRecord.commit_patch": [("open", "wb")],  # the sidecar write done in place; its target is pinned by R6 (newest container's sidecar only)
     "ih5.record.IH5Record._delete_latest_container": [("Path.unlink", "w")],  # newest only, see R2/R3
     "ih5.record.IH5Record.delete_files": [("Path.unlink", "w")],  # reachable only from mode 'w' (C03.R2)
 }
